@@ -182,6 +182,9 @@ func (ex *Exec) stepGuarded(fr *Frame, work *[]*Frame, outs *[]Outcome) (cont bo
 
 // startPanic begins unwinding the frame: runs defers; returns whether the frame continues.
 func (ex *Exec) startPanic(fr *Frame, val Value, work *[]*Frame, outs *[]Outcome) bool {
+	if debugPanics {
+		debugPrintf("PANIC in %s: %s\n", shortFn(fr.Fn), describe(val))
+	}
 	if len(fr.Defers) == 0 {
 		*outs = append(*outs, Outcome{St: fr.St, Kind: OPanic, Panic: val})
 		return false
